@@ -546,7 +546,7 @@ func gen(t *rapid.T) Plan {
 const rule = "a connected zcrypto client/server pair (TLS 1.0-1.3; ECDSA, RSA, Ed25519 keys; tickets on/off; handshake completed beforehand in half of the plans, otherwise Read/Write/Handshake race to start it) behind the tlskit proxy (generated per-record delays, records optionally delivered in two segments); 2-6 goroutines per side (readers, writers, mixed, controllers) run generated sequences of Read(0..20000) / Write(tagged record of 6..16384 bytes) / Handshake / ConnectionState / SetDeadline,SetReadDeadline,SetWriteDeadline(past, soon, later, clear) / CloseWrite / Close / Gosched / sleep(1..3000 us); when the plan has run or stalled both transports are closed. Non-trivial: >= 2 goroutines reading or >= 2 writing on one side and at least one Close/CloseWrite/deadline operation; distinct by plan hash (each plan is additionally a fresh sample of the scheduler)"
 
 func TestPropSchedules(t *testing.T) {
-	kit.Run(t, kit.Spec[Plan]{ID: "C34", Name: "schedules", Rule: rule, Gen: gen, Check: check, Quick: 250, Thorough: 600,
+	kit.Run(t, kit.Spec[Plan]{ID: "C34", Name: "schedules", Rule: rule, Gen: gen, Check: check, Quick: 250, Thorough: 1500,
 		Assumptions: []string{
 			"schedules are sampled, not enumerated: the race detector generalises each run to its happens-before class, but a race or lost wake-up that needs an interleaving never produced here is missed",
 			"deadlock freedom is decided up to the watchdog after both transports have been closed",
